@@ -47,6 +47,7 @@ func verifyUnit1(l *Loader, pkgPath, key string, fixed map[string]Val, suffix st
 			panic(r)
 		}
 	}()
+	currentUnitPkg = pkgPath
 	fn := l.findFunc(pkgPath, key)
 	if fn == nil {
 		res.Err = "contract-binding: function " + key + " not found in " + pkgPath
@@ -128,6 +129,7 @@ func verifyUnit1(l *Loader, pkgPath, key string, fixed map[string]Val, suffix st
 	for _, cl := range c.Requires {
 		ex.assume(st, env.evalBool(cl))
 	}
+	ex.setupHavocCalls(env, c, fn)
 	ex.applyUses(c, fn, st)
 	pre := &Obl{Name: fx0.prefix + "#cover.pre", Kind: "cover", Unit: ex.Unit, Assume: ex.Assume[:len(ex.Assume):len(ex.Assume)], Reach: True, ExpectSat: true}
 	ex.Obls = append(ex.Obls, pre)
@@ -138,6 +140,7 @@ func verifyUnit1(l *Loader, pkgPath, key string, fixed map[string]Val, suffix st
 		locs = append(locs, env.evalLoc(m))
 	}
 	rv, out := ex.runFunc(fn, args, nil, st, true, c)
+	ex.checkKept(fn, fx0.prefix)
 	if !out.Reach.IsFalse() {
 		fxp := &fnExec{ex: ex, fn: fn, c: c, args: args, callCount: map[string]int{}, prefix: fx0.prefix}
 		env2 := &SpecEnv{ex: ex, fx: fxp, st: out, old: entry, vars: map[string]Val{}, fn: fn}
